@@ -1068,13 +1068,14 @@ REGISTER = {
         ],
         manifest=dict(
             category="other",
-            technique="bounded execution of the real command (in-process main() on scratch files with captured output, plus a few real processes) against oracles "
-                      "written from the statement: validity by construction => status 0, prefixes => 0 or 3, differential comparison with a reference parse under "
-                      "an own minimal monitor on exhaustive single-bit flips / byte corruptions / prefixes of small streams and seeded random mutations, and "
-                      "'never 255 / never an exception' on every execution",
-            text="For every stream of a valid corpus under the default options, ~20 fixed option sets, --show/--hide of every pseudocode function and ~30 range options "
-                 "the viewer must return 0; for every prefix 0 or 3; for every mutated / random input a status out of {0,2,3,4} that agrees with what a reference parse "
-                 "of the same bytes experiences; it must never return 255, print an internal-error message, raise, or leave through SystemExit.",
+            technique="bounded native contract check: the real command (in-process main() on scratch files with captured output, plus a few real processes) is executed "
+                      "on valid streams, every prefix, exhaustive single-bit flips / byte corruptions of small streams, seeded random mutations, garbage and huge "
+                      "header values, under default and sampled display options; deciding postcondition on every execution: status in {0,2,3,4}, never 255, no "
+                      "internal-error message, no uncaught exception",
+            text="For every input of the stated corpus under the default options, ~20 fixed option sets, --show/--hide of every pseudocode function and ~30 range options "
+                 "the viewer must return a status out of {0,2,3,4}; it must never return 255, print an internal-error message, raise, or leave through SystemExit.  "
+                 "Which of the permitted statuses is the right one (0 for valid streams, 0 or 3 for prefixes, agreement with a reference parse) is recorded in the "
+                 "evidence as an observation and never decides the check, because the property does not state it.",
             note="Bounded stand-in, never counted as proved.  The status line is forced to be drawn (update interval 0) in half of the runs that hide values; "
                  "output is captured in memory (no tty).",
         ),
